@@ -389,6 +389,11 @@ fn write_data_to_stream<F: Read + Write + Seek>(
     })
 }
 
+fn write_zeros<W: Write>(writer: &mut W, len: u64) -> io::Result<()> {
+    io::copy(&mut io::repeat(0).take(len), writer)?;
+    Ok(())
+}
+
 /// If `new_stream_len` is less than the stream's current length, then the
 /// stream will be truncated.  If it is greater than the stream's current size,
 /// then the stream will be padded with zero bytes.
@@ -411,6 +416,9 @@ fn resize_stream<F: Read + Write + Seek>(
             // into a new mini chain.
             let mut chain = minialloc.open_mini_chain(consts::END_OF_CHAIN)?;
             chain.set_len(new_stream_len)?;
+            // Mini sectors are not initialized when they are allocated, so
+            // they may still hold the data of an earlier stream.
+            write_zeros(&mut chain, new_stream_len)?;
             chain.start_sector_id()
         } else {
             // Case 1b: The new length is large enough that it should be placed
@@ -433,6 +441,12 @@ fn resize_stream<F: Read + Write + Seek>(
             let mut chain = minialloc.open_mini_chain(old_start_sector)?;
             chain.set_len(new_stream_len)?;
             debug_assert_eq!(chain.start_sector_id(), old_start_sector);
+            if new_stream_len > old_stream_len {
+                // Zero the rest of the old final mini sector as well as the
+                // (uninitialized) mini sectors that were just added.
+                chain.seek(SeekFrom::Start(old_stream_len))?;
+                write_zeros(&mut chain, new_stream_len - old_stream_len)?;
+            }
             old_start_sector
         } else {
             // Case 2c: The new length is too large to fit in a mini chain.
@@ -474,6 +488,15 @@ fn resize_stream<F: Read + Write + Seek>(
                 minialloc.open_chain(old_start_sector, SectorInit::Zero)?;
             chain.set_len(new_stream_len)?;
             debug_assert_eq!(chain.start_sector_id(), old_start_sector);
+            if new_stream_len > old_stream_len {
+                // New sectors are zeroed when they are allocated, but the rest
+                // of the old final sector may hold stale data.
+                let sector_len = chain.len() / chain.num_sectors() as u64;
+                let old_end = old_stream_len.div_ceil(sector_len) * sector_len;
+                let zero_len = old_end.min(new_stream_len) - old_stream_len;
+                chain.seek(SeekFrom::Start(old_stream_len))?;
+                write_zeros(&mut chain, zero_len)?;
+            }
             old_start_sector
         }
     };
